@@ -60,6 +60,8 @@ def check_ids(label, plabel, t, planted, canon):
         return [("unparsable", f"result not well-formed: {e}")]
     ids = all_ids(tout)
     head = canon_run.label_class(label)
+    if head.startswith("merge:"):
+        head = ":".join(head.split(":")[:3])        # sequence and parent; the surrounding context is not part of the class
     if any(i is None or i == "" for i in ids):
         tags = sorted({n.tag for _, n in tout.walk() if not n.attrs.get("id")})
         out.append((f"missing-id|{','.join(tags)}", f"element(s) without id: {tags}"))
